@@ -105,12 +105,12 @@ def cm_state(h, rng, tier, cls=None):
 def cm_cont(h, rng, a, b, kind, nh, nb, wt):
     for _ in range(rng.choice([1, 4, 10])):
         it = rand_item(rng, "i", 30); x = wt()
-        h.add("upd %d %s %s" % (a, it, x)); h.add("upd %d %s %s" % (b, it, x))
+        h.add("upd2 %d %d %s %s 1" % (a, b, it, x))
     if rng.random() < 0.5:
         t = h.slot(); h.add("new %d %s %d %d" % (t, kind, nh, nb))
         for _ in range(3):
             h.add("upd %d %s %s" % (t, rand_item(rng, "i", 30), wt()))
-        h.add("merge %d %d" % (a, t)); h.add("merge %d %d" % (b, t))
+        h.add("merge2 %d %d %d 1" % (a, b, t))
 
 
 def fi_state(h, rng, tier, cls=None):
@@ -149,10 +149,10 @@ def fi_state(h, rng, tier, cls=None):
     def cont(a, b):
         for _ in range(rng.choice([1, 5, 3 * cap])):
             it = rand_item(rng, ity, 3 * cap); x = wt()
-            h.add("upd %d %s %s" % (a, it, x)); h.add("upd %d %s %s" % (b, it, x))
+            h.add("upd2 %d %d %s %s 1" % (a, b, it, x))
         if rng.random() < 0.5:
             t = mk(lgmax, 3); fill(t, rng.choice([2, 2 * cap]), 3 * cap)
-            h.add("merge %d %d" % (a, t)); h.add("merge %d %d" % (b, t))
+            h.add("merge2 %d %d %d 1" % (a, b, t))
     return s, kind, cls, dict(cont=cont)
 
 
@@ -188,7 +188,7 @@ def vo_state(h, rng, tier, cls=None, ity=None, k=None):
     def cont(a, b):
         for _ in range(rng.choice([1, 3, k + 2, 3 * k])):
             it = rand_item(rng, ity, 100); x = dweight(rng, 0.15); sd = rng.randrange(1, 2**32)
-            h.add("seed %d" % sd); h.add("upd %d %s %s" % (a, it, x)); h.add("seed %d" % sd); h.add("upd %d %s %s" % (b, it, x))
+            h.add("upd2 %d %d %s %s %d" % (a, b, it, x, sd))
     return s, kind, cls, dict(cont=cont, ity=ity, k=k)
 
 
@@ -224,7 +224,7 @@ def vu_state(h, rng, tier, cls=None):
         for _ in range(rng.choice([1, 2])):
             s, _, _, _ = vo_state(h, rng, tier, ity=ity, k=rng.choice([maxk, max(1, maxk - 1), maxk + 2]))
             sd = rng.randrange(1, 2**32)
-            h.add("seed %d" % sd); h.add("merge %d %d" % (a, s)); h.add("seed %d" % sd); h.add("merge %d %d" % (b, s))
+            h.add("merge2 %d %d %d %d" % (a, b, s, sd))
     return u, kind, cls, dict(cont=cont)
 
 
@@ -260,11 +260,11 @@ def eb_state(h, rng, tier, cls=None):
     def cont(a, b):
         for _ in range(rng.choice([1, 3, k + 2])):
             it = rand_item(rng, ity, 60); x = dweight(rng, 0.15); sd = rng.randrange(1, 2**32)
-            h.add("seed %d" % sd); h.add("upd %d %s %s" % (a, it, x)); h.add("seed %d" % sd); h.add("upd %d %s %s" % (b, it, x))
+            h.add("upd2 %d %d %s %s %d" % (a, b, it, x, sd))
         if rng.random() < 0.5:
             t = mk(k); fill(t, rng.choice([2, k + 2]), False)
             sd = rng.randrange(1, 2**32)
-            h.add("seed %d" % sd); h.add("merge %d %d" % (a, t)); h.add("seed %d" % sd); h.add("merge %d %d" % (b, t))
+            h.add("merge2 %d %d %d %d" % (a, b, t, sd))
     return s, kind, cls, dict(cont=cont)
 
 
@@ -401,8 +401,19 @@ class C09Part(WirePart):
 
     def oracle(self, hist, impl_out):
         bad = []
+        broken_pairs = set()      # (a, b) whose continuation already failed asymmetrically: later comparisons say nothing new
         for i, (l, o) in enumerate(zip(hist, impl_out)):
             op = l.split()[0]
+            if op in ("upd2", "merge2") and o.startswith("ASYM "):
+                w = l.split()
+                broken_pairs.add((w[1], w[2]))
+                bad.append(("%s/continue-%s" % (self.fam, o.split()[1]),
+                            "`%s`: the same operation under the same draws throws on only one of original / restored sketch" % l[:120], i))
+                continue
+            if op == "eq" and tuple(l.split()[1:3]) in broken_pairs:
+                continue
+            if o.startswith("ERR "):
+                continue
             if op == "ser":
                 if o.startswith("SERCRASH "):
                     w = o.split()
@@ -417,6 +428,8 @@ class C09Part(WirePart):
                 if o.startswith("EQ X"):
                     for c in (o[4:].strip() or "content-crash").split(","):
                         bad.append(("%s/%s" % (self.fam, c), "public API call needed for the comparison crashed: %s" % o[:200], i))
+                elif not o.startswith("EQ "):
+                    bad.append(("%s/eq-throws" % self.fam, o[:120], i))
                 elif o.strip() != "EQ 1":
                     bad.append(("%s/%s" % (self.fam, "restore-differs" if hist[i - 1].startswith("fork") else "continue-diverges"), o[:300], i))
             elif op in ("fork", "result"):
@@ -450,7 +463,8 @@ class C10Part(WirePart):
         hs = []
         bl = baseline_lines(self.fam)
         for i in range(0, len(bl), 12):
-            hs.append(["load %s %s | %s" % (parse_img(l)["kind"], parse_img(l)["hex"], parse_img(l)["content"]) for _, l in bl[i:i + 12]])
+            hs.append((["zerofill 1"] if self.fam == "vunion" else []) +
+                      ["load %s %s | %s" % (parse_img(l)["kind"], parse_img(l)["hex"], parse_img(l)["content"]) for _, l in bl[i:i + 12]])
         if not bl:
             hs.append(["load-missing-baseline-corpus %s" % self.fam])
         n = 6 if tier == "quick" else 60
@@ -484,7 +498,12 @@ class C10Part(WirePart):
                     bad.append(("%s/baseline-image-rejected" % self.fam, "%s %s" % (w[1], w[2][:160]), i)); continue
                 d = parse_img(o)
                 if d["checks"] != "ok":
-                    bad.append(("%s/baseline-image-rejected" % self.fam, "%s %s: %s" % (w[1], w[2][:160], d["checks"]), i))
+                    cs = d["checks"].replace("FAIL:", "").split(",")
+                    if any(c in ("bytes-throws", "stream-throws") for c in cs):
+                        bad.append(("%s/baseline-image-rejected" % self.fam, "%s %s: %s" % (w[1], w[2][:160], d["checks"]), i))
+                    else:
+                        for c in cs:
+                            bad.append(("%s/baseline-%s" % (self.fam, c), "%s %s: %s" % (w[1], w[2][:160], d["checks"]), i))
                 elif d["content"] != want:
                     bad.append(("%s/baseline-content-changed" % self.fam, "%s %s: recorded `%s`, now `%s`" % (w[1], w[2][:120], want[:200], d["content"][:200]), i))
             elif w[0] == "ser" and not o.startswith("IMG "):
@@ -518,8 +537,8 @@ class C11Part(WirePart):
         for cls in class_schedule(self.fam, rng, n):
             h = Hist(rng, zerofill=(self.fam == "vunion"))
             s, kind, cls, aux = STATE_GEN[self.fam](h, rng, tier, cls=cls)
-            h.add("c11 %d" % s)
-            hs.append(h.ops)
+            # the set-up on ONE line: the failing-input shrinker then needs two or three runs of the (expensive) c11 op
+            hs.append(["do " + " ; ".join(h.ops), "c11 %d" % s])
         return hs
 
     def model_lines(self, hist, impl_out):
@@ -573,7 +592,7 @@ class C11Part(WirePart):
             if self.stats is not None:
                 self.stats["images"] = self.stats.get("images", 0) + 1
                 self.stats["prefixes"] = self.stats.get("prefixes", 0) + 2 * n
-                self.stats["corruptions"] = self.stats.get("corruptions", 0) + sum(1 for c in d["cb"] + d["cs"] if c != "=")
+                self.stats["corruptions"] = self.stats.get("corruptions", 0) + sum(1 for c in d["cb"] + d["cs"] + d.get("xb", "") + d.get("xs", "") if c != "=")
             for path, key in (("bytes", "b"), ("stream", "s")):
                 v = d[key]
                 if len(v) != n:
@@ -585,7 +604,7 @@ class C11Part(WirePart):
                 for (oc, fld), ks in sorted(groups.items()):
                     bad.append(("%s/%s/prefix/%s@%s" % (self.fam, path, oc, fld),
                                 "%s: deserialize(%s) of the first n bytes, n in %s of %d: %s (a strict prefix must be rejected with an exception); image %s"
-                                % (d["kind"], path, compress(ks), n, oc, d["hex"][:200]), i))
+                                % (d["kind"], path, compress(ks), n, oc, d["hex"][:1600]), i))
             for path, key in (("bytes", "cb"), ("stream", "cs")):
                 v = d[key]
                 groups = {}
@@ -596,13 +615,28 @@ class C11Part(WirePart):
                 for (oc, fld), ks in sorted(groups.items()):
                     bad.append(("%s/%s/corrupt/%s@%s" % (self.fam, path, oc, fld),
                                 "%s: deserialize(%s) after replacing one preamble byte (position:replacement %s): %s; image %s"
-                                % (d["kind"], path, ",".join("%d:%s" % (p, repl_name(j)) for p, j in ks[:6]), oc, d["hex"][:200]), i))
+                                % (d["kind"], path, ",".join("%d:%s" % (p, repl_name(j)) for p, j in ks[:6]), oc, d["hex"][:1600]), i))
+            for path, key in (("bytes", "xb"), ("stream", "xs")):
+                v = d.get(key, "")
+                groups = {}
+                for k, c in enumerate(v):
+                    if c in SAFETY_CODES:
+                        wi, j = divmod(k, 7)
+                        groups.setdefault((CODE_NAMES.get(c, c), field_at(L, 4 * wi)), []).append((4 * wi, j))
+                for (oc, fld), ks in sorted(groups.items()):
+                    bad.append(("%s/%s/corrupt-word/%s@%s" % (self.fam, path, oc, fld),
+                                "%s: deserialize(%s) after overwriting a 32-bit preamble word (offset:attack %s): %s; image %s"
+                                % (d["kind"], path, ",".join("%d:%s" % (p, word_name(j)) for p, j in ks[:6]), oc, d["hex"][:1600]), i))
         return bad
 
     def nontrivial_key(self, hist, impl_out):
         c = [parse_c11(o) for o in impl_out if o.startswith("C11 ")]
         big = [d for d in c if img_len(d["hex"]) > 16]
         return (big[0]["kind"].split(":")[0], img_len(big[0]["hex"]), hash(big[0]["hex"]) & 0xffff) if big else None
+
+
+def word_name(j):
+    return ["ffffffff", "7fffffff", "80000000", "w-1", "w+1", "(w+5,next-5)", "(w-5,next+5)"][j]
 
 
 def repl_name(j):
@@ -660,5 +694,93 @@ def make_baseline(repo_bin=None):
         print(fam, len(lines), "images")
 
 
+
+
+# ------------------------------------------------------------------------------------------------ known findings of this group
+# One rule per root cause: (property, key template, {placeholder: values}, proposed fix, what).  `python3 -m vlib.props.wire_count_common findings`
+# rewrites the entries of group "count" in known_findings.json from these rules (the templates are expanded; a key is listed only if it
+# names a place where that root cause can show).  Every root cause was reproduced with a tiny program (proposed_fixes/*.md).
+P2 = ["bytes", "stream"]
+W2 = ["", "-word"]
+FINDING_RULES = [
+    ("C09", "{f}/continue-restored-throws", dict(f=["varopt", "vunion"]), "C09-varopt-restored-m-region",
+     "var_opt_sketch::deserialize passes m = 1 for sampling-mode images: the restored sketch/gadget throws std::logic_error on the next heavy update"),
+    ("C09", "vunion/{k}", dict(k=["restored-bytes-api-throws", "restored-stream-api-throws", "ser-api-throws", "api-throws"]), "C09-varopt-restored-m-region",
+     "get_result() of a restored union throws (gadget restored with m = 1)"),
+    ("C10", "vunion/baseline-restored-{p}-api-throws", dict(p=P2), "C09-varopt-restored-m-region",
+     "get_result() of a union restored from a baseline image throws (gadget restored with m = 1)"),
+    ("C09", "vunion/get-result-ubsan:move.h:load-of-value-which-is", {}, "C09-varopt-gadget-marks-uninitialised",
+     "deserialize leaves marks_[h..] of a gadget uninitialised; get_result() of the restored union swaps them (UBSan invalid bool load)"),
+    ("C09", "ebpps/ser-ubsan:serde.hpp:null-pointer-passed-as-argument", {}, "C09-serde-null-memcpy",
+     "serialize(bytes) of an EBPPS sample without full items: memcpy(ptr, nullptr, 0)"),
+    ("C09", "ebpps/{k}", dict(k=["restore-bytes-throws", "restore-stream-throws", "fork-throws"]), "C09-ebpps-items-vs-c",
+     "reachable EBPPS state (after merge) holds fewer full items than floor(c); its own image is rejected by the reader"),
+    ("C11", "countmin/bytes/prefix/asan@cells", {}, "C11-countmin-reader",
+     "D8: ensure_minimum_memory omits the 16 preamble bytes; the last 16 prefix lengths read past the buffer"),
+    ("C11", "countmin/stream/prefix/{o}@{fld}", dict(o=["accept", "accept-other-content"], fld=["pre", "cfg", "weight", "cells"]), "C11-countmin-reader",
+     "deserialize(istream) never checks the stream state: truncated streams are accepted with indeterminate content"),
+    ("C11", "countmin/{p}/corrupt{w}/asan@cfg", dict(p=P2, w=W2), "C11-countmin-reader",
+     "num_buckets * num_hashes limit check wraps in 32 bits: tiny table with a huge num_buckets, getters index out of bounds"),
+    ("C11", "countmin/{p}/corrupt{w}/ubsan@cfg", dict(p=P2, w=W2), "C11-countmin-reader",
+     "num_hashes = 0 accepted; get_estimate dereferences min_element of an empty vector"),
+    ("C11", "countmin/{p}/corrupt{w}/alloc_cap@cfg", dict(p=P2, w=W2), "C11-countmin-reader + C11-config-dictated-allocation",
+     "table allocated from unchecked num_buckets*num_hashes before any size check (non-empty bytes images: fixed by the patch; empty images / streams: by design)"),
+    ("C11", "fi/{p}/corrupt{w}/ubsan@pre", dict(p=P2, w=W2), "C11-fi-reader", "lg_max_map_size has no upper bound: 1 << lg_max is undefined (get_epsilon, hash map)"),
+    ("C11", "fi/stream/prefix/{o}@{fld}", dict(o=["ubsan", "alloc_cap"], fld=["pre", "count", "total", "offset"]), "C11-fi-reader",
+     "stream reader uses lg sizes / num_items read from a truncated stream without checking the stream state"),
+    ("C11", "fi/stream/corrupt{w}/{o}@{fld}", dict(w=W2, o=["alloc_cap", "timeout"], fld=["count", "pre"]), "C11-fi-reader + C11-serde-string-stream",
+     "num_items (or a string length seen at a shifted position) drives allocation before anything is read"),
+    ("C11", "fi/bytes/corrupt{w}/ubsan@count", dict(w=W2), "C11-fi-reader", "num_items = 0 in a non-empty image: memcpy with a null destination"),
+    ("C11", "varopt/{p}/corrupt-word/asan@h_r", dict(p=P2), "C11-varopt-reader", "h + r == k checked in 32 bits: (h+5, r-5) passes, h weights overflow the k+1 array (heap WRITE)"),
+    ("C11", "varopt/stream/corrupt{w}/{o}@{fld}", dict(w=W2, o=["alloc_cap", "timeout"], fld=["n", "h_r", "total_wt_r", "weights"]), "C11-serde-string-stream",
+     "string serde (stream): unchecked length drives reserve and an unbounded push_back loop"),
+    ("C11", "varopt/{p}/corrupt{w}/alloc_cap@pre", dict(p=P2, w=W2), "C11-config-dictated-allocation", "k of an (empty) image dictates the allocation (resize factor X1)"),
+    ("C11", "vunion/bytes/prefix/asan@{fld}", dict(fld=["un", "outer_tau_num", "outer_tau_den"]), "C11-varopt-reader",
+     "var_opt_union::deserialize(bytes) checks 8 bytes, then reads 24 more: prefixes of length 8..31 are read out of bounds"),
+    ("C11", "vunion/{p}/corrupt-word/asan@g.h_r", dict(p=P2), "C11-varopt-reader", "gadget: h + r == k checked in 32 bits (heap WRITE)"),
+    ("C11", "vunion/stream/corrupt{w}/{o}@g.{fld}", dict(w=W2, o=["alloc_cap", "timeout"], fld=["n", "h_r", "total_wt_r", "weights", "pre"]), "C11-serde-string-stream",
+     "string serde (stream): unchecked length drives reserve and an unbounded push_back loop"),
+    ("C11", "vunion/{p}/corrupt{w}/ubsan@g.pre", dict(p=P2, w=W2), "C11-varopt-reader", "the union accepts a non-gadget sketch image as its gadget: marks_ is null and is dereferenced"),
+    ("C11", "ebpps/stream/prefix/{o}@pre", dict(o=["accept", "accept-other-content", "alloc_cap"]), "C11-ebpps-reader",
+     "empty-image branch of deserialize(istream) does not check the stream state: garbage k accepted or reserved"),
+    ("C11", "ebpps/{p}/corrupt{w}/{o}@{fld}", dict(p=P2, w=W2, o=["asan", "ubsan"], fld=["cum_wt", "wt_max", "rho", "c"]), "C11-ebpps-reader",
+     "cumulative weight / max weight / rho / c are not validated; the next update or merge indexes past the sample"),
+    ("C11", "ebpps/stream/corrupt{w}/{o}@c", dict(w=W2, o=["alloc_cap", "timeout"]), "C11-ebpps-reader + C11-serde-string-stream",
+     "c is not bounded by k: floor(c) items are allocated / read"),
+    ("C11", "ebpps/{p}/corrupt{w}/alloc_cap@pre", dict(p=P2, w=W2), "C11-config-dictated-allocation", "k of an (empty) image dictates reserve(k)"),
+]
+
+
+def expand_rules():
+    import itertools
+    out = []
+    for prop, tmpl, ph, fix, what in FINDING_RULES:
+        names = list(ph)
+        for combo in itertools.product(*[ph[n] for n in names]):
+            key = tmpl.format(**dict(zip(names, combo)))
+            out.append(dict(property=prop, key=key, status="open", group="count",
+                            what="%s [proposed_fixes/%s]" % (what, fix.replace(" + ", ", proposed_fixes/"))))
+    return out
+
+
+def write_findings(observed_files):
+    import json
+    path = os.path.join(core.ROOT, "known_findings.json")
+    cur = [e for e in json.load(open(path)) if e.get("group") != "count"] if os.path.exists(path) else []
+    mine = expand_rules()
+    json.dump(cur + mine, open(path, "w"), indent=1)
+    keys = set((e["property"], e["key"]) for e in mine)
+    for f in observed_files:
+        for k in json.load(open(f)):
+            p, key = k.split(" ", 1)
+            if (p, key) not in keys:
+                print("UNMATCHED", p, key)
+    print(len(mine), "entries")
+
+
 if __name__ == "__main__":
-    make_baseline()
+    import sys
+    if len(sys.argv) > 1 and sys.argv[1] == "findings":
+        write_findings(sys.argv[2:])
+    elif len(sys.argv) > 1 and sys.argv[1] == "baseline":
+        make_baseline()
